@@ -102,6 +102,7 @@ IsData(v) ==
   CASE v.k \in AtomKinds -> TRUE
     [] v.k = "seq" -> v.f \in {"list", "tuple", "other"} /\ \A i \in DOMAIN v.xs : IsData(v.xs[i])
     [] v.k = "map" -> \A i \in DOMAIN v.ps : IsData(v.ps[i][1]) /\ IsData(v.ps[i][2])
+    [] v.k = "sub" -> v.x.k \in AtomKinds      \* an instance of a subclass of str / int / .. is a str / int / ..
     [] OTHER -> FALSE
 
 -----------------------------------------------------------------------------
